@@ -1,4 +1,4 @@
-\* Quick tier, part 3: the log hand-over is not atomic - heads are published, polled and scanned between LogReceived and PendingStored.
+\* Thorough tier, part 5: Run returns (fatal RPC error) and is restarted on the same Watcher while messages are pending.
 SPECIFICATION MCSpec
 CONSTANTS
   Nil = Nil
@@ -8,20 +8,20 @@ CONSTANTS
   Modes = {TRUE, FALSE}
   CLs = {0, 1}
   MineBack = 0
-  ArmKinds = {"hreceipt"}
+  ArmKinds = {"hreceipt", "ltime"}
   RemineStatus = {1}
   MidScanHeads = FALSE
-  HeldIntake = TRUE
-  MaxHeads = 3
+  HeldIntake = FALSE
+  MaxHeads = 4
   MaxMine = 1
   MaxPush = 2
-  MaxReorg = 0
+  MaxReorg = 1
   MaxRemine = 0
   MaxDrop = 0
   MaxFail = 0
   MaxArm = 1
   MaxReq = 0
-  MaxRestart = 0
+  MaxRestart = 2
 INVARIANTS
   TypeOK
   ForwardSound
